@@ -56,11 +56,17 @@ func NewContextForSecuredDevice(b SecuredDevice) Context {
 	return &ctx
 }
 
+// GetKey returns the key of a connection: both of its addresses. The remote
+// address alone is not unique when the server listens on more than one address.
 func (ctx *context) GetKey(c net.Conn) interface{} {
-	return c.RemoteAddr().String()
+	return c.RemoteAddr().String() + "|" + c.LocalAddr().String()
 }
 
 func (ctx *context) GetConnectionKey(r *http.Request) interface{} {
+	if local, ok := r.Context().Value(http.LocalAddrContextKey).(net.Addr); ok {
+		return r.RemoteAddr + "|" + local.String()
+	}
+
 	return r.RemoteAddr
 }
 
